@@ -200,7 +200,11 @@ def _doc_with_refs(draw):
         else:
             parts.append(draw(legal.fragment(hostile=False)))
         parts.append(draw(st.sampled_from(legal.SEPARATORS + ["", " ", ", ", " ("])))
-    return "".join(parts)
+    s = "".join(parts)
+    if draw(st.integers(0, 3)) == 0:
+        # hard-wrapped or tab-separated text: no "at" of the document stands between two plain blanks
+        s = s.replace(" at ", draw(st.sampled_from(["\nat ", " at\n", "\tat\t", "\u00a0at ", " at\u00a0", "\n at\n"])))
+    return s
 
 
 _op = st.one_of(
